@@ -96,7 +96,7 @@ class C05(PropCheck):
         return c05_impl.run_case(case, Violation)
 
     def coq_item(self, case, run):
-        if run["status"] in ("empty", "too-few-samples"):
+        if run["status"] in ("empty", "too-few-samples", "history-not-clean"):
             return None
         if run["status"] == "raises":
             exp = sv([True])
@@ -140,6 +140,10 @@ class C05(PropCheck):
         inc("atoms", len(case["atoms"]) + len(case.get("extra_atoms", [])))
         inc("register_dim", len(case["atoms"][0][1]))
         inc("rate", case["rate"])
+        inc("config_history_steps", len(case.get("history") or []))
+        for (how, kw), res in zip(case.get("history") or [], run.get("history") or []):
+            inc("config_history_calls", how + ":" + ("-" if kw is None else "+".join(kw.get("noise", [])) or "none")
+                + (":eta>0" if kw and kw.get("eta", 0) > 0 else "") + ":" + res)
         inc("path", "constructor" if (case.get("direct") or case.get("extra_atoms")) else "from_sequence")
         if run["status"] == "ok":
             inc("levels", run["dim"])
